@@ -745,6 +745,8 @@ def run(ctx):
                               libs=["orange", "geocel", "corecel"], extra=incs if extra_src else ())
     # part 2 of the tie (bounding zones, transformed boxes, soft de-duplication: tie2.py): the library side runs now,
     # the model side is evaluated in the background and judged at the end
+    global BZ_STATE
+    BZ_STATE = tie2.bz_source_state()
     t2 = tie2.start(ctx, extra_src, incs)
 
     # ---------------- generate -------------------------------------------
@@ -1219,8 +1221,50 @@ def finding_signature(levels, p, acc_def, acc_built, got, vols=None):
         objs = [o for l_, o in u["materials_resolved"] if l_ == lab]
         if bb is not None and objs and not all(bb[i] <= q[i] <= bb[3 + i] for i in range(3)):
             if nested_difference(objs[0]):
-                return "boundingzone-shrink-difference-returns-subtrahend"
+                # the finding is excused only while the source under test still has the defect (tie2.bz_source_state):
+                # with calc_difference repaired only the union half (operand order of the mixed branches, pinned by
+                # BoundingZoneTest.calc_union) remains, which needs a union in the object; with both repaired the old
+                # behaviour is a hard violation
+                diff_fixed, union_fixed = BZ_STATE
+                if not diff_fixed or (not union_fixed and union_with_negation(objs[0])):
+                    return "boundingzone-shrink-difference-returns-subtrahend"
     return None
+
+
+BZ_STATE = (False, False)
+
+
+def zone_flag(o):
+    """the `negated` flag BoundingZone.cc gives the zone of an object (VolumeBuilder::insert_region folds
+    calc_intersection / calc_union over the operands)"""
+    k = o[0]
+    if k == "neg":
+        return not zone_flag(o[1])
+    if k == "all":
+        return bool(o[1]) and all(zone_flag(x) for x in o[1])
+    if k == "any":
+        return any(zone_flag(x) for x in o[1])
+    if k == "trans":
+        return zone_flag(o[-1])
+    if k == "def":
+        return zone_flag(o[2])
+    return False
+
+
+def union_with_negation(o):
+    """some `any` node has an operand whose zone is negated: calc_union's mixed-negation branches are used"""
+    k = o[0]
+    if k == "neg":
+        return union_with_negation(o[1])
+    if k == "all":
+        return any(union_with_negation(x) for x in o[1])
+    if k == "any":
+        return any(zone_flag(x) for x in o[1]) or any(union_with_negation(x) for x in o[1])
+    if k == "trans":
+        return union_with_negation(o[-1])
+    if k == "def":
+        return union_with_negation(o[2])
+    return False
 
 
 def nested_difference(o, under=False):
